@@ -416,9 +416,12 @@ pub fn deviate(rng: &mut Rng, s: &mut Sym, which: usize) -> Option<String> {
         // --- don't-care deviations (generated for C07 / C10; the C08 oracle abstains)
         14 => {
             let site = rng.pick(&objs).clone();
+            let (s_discs_empty, n_discs) = (s.discs.is_empty(), s.discs.len().max(1));
             let o = obj_at(s, &site)?;
-            o.insert("_sd".into(), rng.pick(&[json!("x"), json!(null), json!({}), json!(3)]).clone());
-            Some("dc_sd_not_an_array".into())
+            // sometimes the lone string IS the digest of a presented disclosure
+            let v = if !s_discs_empty && rng.bool() { json!(format!("@{}", rng.usize(n_discs))) } else { rng.pick(&[json!("x"), json!(null), json!({}), json!(3)]).clone() };
+            o.insert("_sd".into(), v);
+            Some("ok_sd_not_an_array_discloses_nothing".into())
         }
         15 => {
             let site = rng.pick(&objs).clone();
@@ -549,6 +552,21 @@ pub fn deviate(rng: &mut Rng, s: &mut Sym, which: usize) -> Option<String> {
             s.discs[i] = Value::String(hex);
             Some("ok_trailing_data_disclosure_matches_nothing".into())
         }
+        28 => {
+            // a disclosure whose value holds digests, written with the reserved key escaped
+            // ("\u005fsd", "\u002e\u002e\u002e"): the same JSON value, another text
+            let pool: Vec<usize> = (0..s.discs.len()).filter(|i| {
+                let t = s.discs[*i].to_string();
+                s.discs[*i].is_array() && (t.contains("\"_sd\":") || t.contains("\"...\":"))
+            }).collect();
+            if pool.is_empty() {
+                return None;
+            }
+            let i = *rng.pick(&pool);
+            let txt = s.discs[i].to_string().replace("\"_sd\":", "\"\\u005fsd\":").replace("\"...\":", "\"\\u002e\\u002e\\u002e\":");
+            s.discs[i] = Value::String(format!("raw:{}", txt));
+            Some("ok_reserved_keys_written_with_escapes".into())
+        }
         25 => {
             // one malformed digest string (too short, not base64url, truncated) at two places
             if objs.is_empty() {
@@ -577,14 +595,14 @@ pub fn deviate(rng: &mut Rng, s: &mut Sym, which: usize) -> Option<String> {
     }
 }
 
-pub const N_DEVIATIONS: usize = 28;
+pub const N_DEVIATIONS: usize = 29;
 
 fn to_cred(s: &Sym, issuer: usize) -> CredSpec {
     CredSpec::Byz {
         issuer,
         typ: None,
         payload: s.payload.clone(),
-        disclosures: s.discs.iter().map(|d| match d.as_str() { Some(h) if h.starts_with("hex:") => h.to_string(), _ => d.to_string() }).collect(),
+        disclosures: s.discs.iter().map(|d| match d.as_str() { Some(h) if h.starts_with("hex:") || h.starts_with("raw:") => h.to_string(), _ => d.to_string() }).collect(),
     }
 }
 
